@@ -40,9 +40,13 @@ struct ChoiceSource
   // the running thread when it can continue (cur_runnable), else the runnable thread with the
   // lowest id; alternative k > 0 is the k-th other runnable thread in id order.  Choosing k > 0
   // while cur_runnable is a preemption.
-  virtual int choose(int n_alts, bool cur_runnable, bool prefer_switch) = 0;
+  // ids[0..n_alts) are the logical thread ids behind the alternatives in that order.
+  virtual int choose(int n_alts, bool cur_runnable, bool prefer_switch, const int *ids) = 0;
   // should this otherwise successful weak compare-exchange fail spuriously?
   virtual bool spurious() = 0;
+  // the running thread used up its fairness quantum and is switched out (priority-based sources
+  // demote it, otherwise a spinning high-priority thread starves the thread it waits for)
+  virtual void quantum_expired(int /*thread_id*/) {}
 };
 
 struct Options
@@ -93,6 +97,7 @@ struct LThread
   uint64_t deadline = 0;
   bool timed_out    = false;
   unsigned spurious_run = 0;
+  uint64_t own_steps    = 0;
   std::condition_variable cv;
   std::thread os;
   bool started = false;
@@ -115,6 +120,8 @@ public:
   uint64_t forced_switches() const { return forced_switches_; }
   int thread_count() const { return static_cast<int>(threads_.size()); }
   int self_id() const { return tl_self ? tl_self->id : -1; }
+  // scheduling points executed by the calling logical thread itself
+  uint64_t my_steps() const { return tl_self ? tl_self->own_steps : 0; }
 
   // ---- lifecycle
   void enter_main()
@@ -261,12 +268,19 @@ public:
 private:
   void bump()
   {
+    if (tl_self)
+      tl_self->own_steps++;
     if (++steps_ > opt_.step_budget)
     {
       Failure f;
       f.kind = End::kStepBudget;
       f.what = "no progress: more than " + std::to_string(opt_.step_budget) +
-               " scheduling points under a fair schedule (livelock / unbounded wait)";
+               " scheduling points under a fair schedule (livelock / unbounded wait); threads:";
+      for (auto &t : threads_)
+        f.what += " t" + std::to_string(t->id) + "{" +
+                  (t->st == LThread::DONE ? "done" : t->st == LThread::RUN ? "run" : "blocked") +
+                  ",own_steps=" + std::to_string(t->own_steps) + "}";
+      f.what += " virtual_ms=" + std::to_string(now_ns_ / 1000000);
       fatal_(f);
       std::abort();
     }
@@ -319,12 +333,20 @@ private:
       // fairness quantum used up: round-robin to the next runnable thread (not a generated choice)
       run_len_ = 0;
       ++forced_switches_;
+      src_->quantum_expired(cur);
       for (int id : runnable_)
         if (id > cur)
           return id;
       return runnable_[0];
     }
-    int k = src_->choose(static_cast<int>(n), cur >= 0, prefer_switch);
+    // alternatives: [current thread if it can continue] + the others in id order
+    alt_ids_.clear();
+    if (cur >= 0)
+      alt_ids_.push_back(cur);
+    for (int id : runnable_)
+      if (id != cur)
+        alt_ids_.push_back(id);
+    int k = src_->choose(static_cast<int>(n), cur >= 0, prefer_switch, alt_ids_.data());
     if (k < 0 || k >= static_cast<int>(n))
       k = 0;
     if (k == 0)
@@ -382,6 +404,7 @@ private:
                   // running logical thread only (the hand-off gives happens-before)
   std::vector<std::unique_ptr<LThread>> threads_;
   std::vector<int> runnable_;
+  std::vector<int> alt_ids_;
   int current_   = 0;
   int last_run_  = 0;
   uint64_t steps_ = 0, now_ns_ = 1000000, preemptions_ = 0, spurious_ = 0, forced_switches_ = 0;
